@@ -21,7 +21,8 @@ RULE = ("generated (operator, lhs Array, other operand) triples: operators + - *
 ASSUMPTIONS = [
     "python numbers and bare ndarrays are dimensionless quantities (the pinned suite requires a_m + 3.0 to raise)",
     "tolerance: 64*eps(result dtype) relative to |a|+|b| for pure arithmetic, 1e-9 when a unit factor takes part",
-    "number + Array / number - Array (no reflected method exists) and Quantity/ndarray on the left of + - are not generated",
+    "number + Array / number - Array (no reflected method exists) and a Quantity on the left of any operator / an ndarray on "
+    "the left of + - are not generated (pint / numpy dispatch those; Quantity * Array returns a Quantity wrapping the Array)",
     "int ** negative python int is not generated (numpy refuses it for plain ndarrays too)",
 ]
 osyris = None
@@ -50,13 +51,17 @@ def case_st(draw, op=None, bkind=None, dtype=None):
     if op == "pow":
         ks = EXPONENTS if not dta.startswith("int") else [0, 0.5, 1, 2, 3, -1.0, 2.0]
         case["k"] = draw(st.sampled_from(ks))
-        case["k_as"] = draw(st.sampled_from(["py", "py", "npf", "nd0"]))
+        case["k_as"] = draw(st.sampled_from(["py", "py", "npf", "nd0", "npi"]))
         return case
     if op in ("rmul", "rdiv"):
-        kind = draw(st.sampled_from(["num", "npf", "int"]))
-        v = draw(st.sampled_from([2, 3, -4, 10])) if kind == "int" else draw(
+        kind = draw(st.sampled_from(["num", "npf", "int", "npf32", "npi64"]))
+        v = draw(st.sampled_from([2, 3, -4, 10])) if kind in ("int", "npi64") else draw(
             vs.magnitudes("float64", 1, allow_zero=False))[0]
-        case["b"] = {"k": "num" if kind == "int" else kind, "v": v}
+        case["b"] = {"k": "num" if kind == "int" else "npf" if kind.startswith("np") else kind, "v": v}
+        if kind == "npf32":
+            case["b"]["dt"] = "float32"          # numpy scalars that are not python float / int subclasses
+        elif kind == "npi64":
+            case["b"]["dt"] = "int64"
         return case
     if op in ("ndmul", "nddiv"):
         case["b"] = draw(vs.array_specs(kind="nd", dtypes=[draw(st.sampled_from(vs.DTYPES))], shape=sb))
@@ -65,6 +70,10 @@ def case_st(draw, op=None, bkind=None, dtype=None):
     if bk in ("A", "Q"):
         case["b"] = draw(vs.array_specs(kind=bk, units=[ub], dtypes=[draw(st.sampled_from(vs.DTYPES))],
                                         shape=sb, specials=(bk == "A")))
+        if bk == "Q" and not sb and draw(st.booleans()):
+            case["b"]["pyscalar"] = True          # 2.0 * units("km"): the magnitude is a plain python number
+        if bk == "A" and rel == "same" and sa == sb and draw(st.integers(0, 5)) == 0:
+            case["b_is_a"] = True                 # a + a, a * a: both operands are the same object
     elif bk == "nd":
         case["b"] = draw(vs.array_specs(kind="nd", dtypes=[draw(st.sampled_from(vs.DTYPES))], shape=sb))
     else:
@@ -73,6 +82,10 @@ def case_st(draw, op=None, bkind=None, dtype=None):
             case["b"] = {"k": "num", "v": v}
         else:
             case["b"] = {"k": bk, "v": draw(vs.magnitudes("float64", 1))[0]}
+            if bk == "npf":
+                case["b"]["dt"] = draw(st.sampled_from(["float64", "float64", "float32", "int64"]))
+                if case["b"]["dt"] == "int64":
+                    case["b"]["v"] = draw(st.sampled_from([1, 2, -3, 7]))
     return case
 
 
@@ -101,6 +114,9 @@ def arith(case, r):
     if "b" in case:
         b = vs.build(case["b"], osyris)
         bv, bu = vs.model_of(case["b"])
+        if case.get("b_is_a"):
+            b, bv, bu = a, av, au
+            r.label("same_object_on_both_sides")
     dta = case["a"]["dtype"]
     r.label("op_" + op, "dtype_" + dta)
     if b is not None:
@@ -140,6 +156,8 @@ def arith(case, r):
                     k = np.float64(k)
                 elif case.get("k_as") == "nd0":
                     k = np.array(k)
+                elif case.get("k_as") == "npi" and float(k) == int(k) and not (dta.startswith("int") and k < 0):
+                    k = np.int64(k)       # (numpy refuses integer ** negative integer for plain arrays too)
                 res = a ** k
             elif op in ("rmul", "ndmul"):
                 res = b * a
@@ -212,7 +230,8 @@ def arith(case, r):
     got = um.to_cgs(res.values, gu)
     factor_involved = factor_involved or abs(gu[0] - 1) > 0 or abs(au[0] - 1) > 0 or (
         bu is not None and abs(bu[0] - 1) > 0)
-    dts = [res.dtype, np.dtype(dta)] + ([np.dtype(case["b"]["dtype"])] if b is not None and "dtype" in case["b"] else [])
+    dts = [res.dtype, np.dtype(dta)] + ([np.dtype(case["b"]["dtype"])] if b is not None and "dtype" in case["b"] else []) + (
+        [np.dtype(case["b"]["dt"])] if b is not None and "dt" in case["b"] else [])
     lowp = any(d.kind == "f" and d.itemsize == 4 for d in dts)
     rtol = _tol(np.float32 if lowp else np.float64, factor_involved)
     with np.errstate(all="ignore"):
